@@ -314,7 +314,8 @@ func checkC06(w *World, r *Report) {
 	P, pbase := replaceChain(ps.quoted[1])
 	openQ, _ := constString(ps.quoted[0])
 	closeQ, _ := constString(ps.quoted[2])
-	r.check(len(P) >= 2 && isStringVal(pbase), "C06.escape", ps.fn, "printer escape chain (quoted form)", ps.quotedRet.Pos(), pairSet(P, false), "no chain of replacements found on the printed string")
+	strKey := e.keyOf(ps.fn.Params[0]).String() + ".(string)"
+	r.check(len(P) >= 2 && e.keyOf(pbase).String() == strKey, "C06.escape", ps.fn, "printer escape chain (quoted form)", ps.quotedRet.Pos(), pairSet(P, false), "the quoted form is not the printed string itself passed through a chain of replacements (base: "+describeVal(e, pbase, 0)+")")
 	var R []replPair
 	singlePass := false
 	if pairs, ok := replacerPairs(w, rs.quotedRet); ok {
@@ -364,7 +365,7 @@ func checkC06(w *World, r *Report) {
 	openR, _ := constString(ps.raw[0])
 	closeR, _ := constString(ps.raw[2])
 	RR, _ := replaceChain(rs.rawRet)
-	okRaw := len(PR) == 1 && len(RR) == 1 && isStringVal(prbase) && PR[0].from == openR && PR[0].to == openR+openR && RR[0].from == PR[0].to && RR[0].to == PR[0].from && PR[0].n == -1 && RR[0].n == -1 && openR == closeR
+	okRaw := len(PR) == 1 && len(RR) == 1 && e.keyOf(prbase).String() == strKey && PR[0].from == openR && PR[0].to == openR+openR && RR[0].from == PR[0].to && RR[0].to == PR[0].from && PR[0].n == -1 && RR[0].n == -1 && openR == closeR
 	r.check(okRaw, "C06.escape", ps.fn, "raw form: delimiter doubling", ps.rawRet.Pos(), "printer doubles, reader un-doubles, all occurrences, nothing else rewritten", fmt.Sprintf("printer raw chain %s (delimiters %q,%q) vs reader raw chain %s", pairSet(PR, false), openR, closeR, pairSet(RR, false)))
 
 	// slices in the reader: strip len(delimiter) at both ends
@@ -1110,6 +1111,42 @@ func checkC15(w *World, r *Report) {
 			r.undecided("C15.raw-roundtrip", nil, "reader string cases", token.NoPos, why2)
 		}
 	}
+	// quoted form: same agreement as C06.escape (a value travels through PRINT and the reader)
+	r.rule("C15.escape", "the quoted string form escapes exactly what the reader un-escapes (shared with C06.escape): a placeholder value containing an escaped character comes back unchanged")
+	escapeAgreement(w, r, e, "C15.escape")
+	// the placeholder table is threaded through every nested read
+	r.rule("C15.thread", "every reader function hands its own placeholder table and environment on to the nested reads it starts")
+	nth := 0
+	for _, fn := range w.pkgFuncs("reader") {
+		var own ssa.Value
+		for _, p := range fn.Params {
+			if _, name, ok := w.namedStruct(p.Type()); ok && name == "HashMap" {
+				own = p
+			}
+		}
+		if own == nil {
+			continue
+		}
+		for _, b := range fn.Blocks {
+			for _, in := range b.Instrs {
+				c, ok := in.(*ssa.Call)
+				if !ok {
+					continue
+				}
+				callee := c.Call.StaticCallee()
+				if callee == nil || fnPkgPath(callee) != modPath+"/reader" {
+					continue
+				}
+				for i, p := range callee.Params {
+					if _, name, ok := w.namedStruct(p.Type()); ok && name == "HashMap" && i < len(c.Call.Args) {
+						nth++
+						r.check(c.Call.Args[i] == own, "C15.thread", fn, "placeholder table passed to "+callee.Name(), c.Pos(), "the function's own table", "a nested read gets another (or no) placeholder table: placeholders below this point read as nil")
+					}
+				}
+			}
+		}
+	}
+	r.floor("C15.thread", "nested reads receiving the placeholder table", nth, 10)
 	// stop
 	nstop := 0
 	for _, b := range rwp.Blocks {
@@ -1184,4 +1221,36 @@ func dominatedByNotContainsLF(fn *ssa.Function, b *ssa.BasicBlock) bool {
 		}
 	}
 	return false
+}
+
+
+// escapeAgreement: the printer's quoted-form replacement chain, inverted, equals the reader's un-escape table.
+func escapeAgreement(w *World, r *Report, e *Engine, rule string) {
+	ps, why := findPrinterStringBranches(w, e)
+	if why != "" {
+		r.undecided(rule, nil, "printer string branches", token.NoPos, why)
+		return
+	}
+	rs, why := findReaderStrings(w, e)
+	if why != "" {
+		r.undecided(rule, nil, "reader string cases", token.NoPos, why)
+		return
+	}
+	P, _ := replaceChain(ps.quoted[1])
+	if len(P) == 0 {
+		// a single strings.NewReplacer on the printer side
+		if pairs, ok := replacerPairs(w, ps.quoted[1]); ok {
+			P = pairs
+		}
+	}
+	var R []replPair
+	if pairs, ok := replacerPairs(w, rs.quotedRet); ok {
+		R = pairs
+	} else {
+		R, _ = replaceChain(rs.quotedRet)
+		if len(R) >= 2 && R[0].to == R[len(R)-1].from {
+			R = append([]replPair{{R[0].from, R[len(R)-1].to, -1}}, R[1:len(R)-1]...)
+		}
+	}
+	r.check(len(P) >= 2 && pairSet(P, true) == pairSet(R, false), rule, ps.fn, "printer escapes vs reader un-escapes", ps.quotedRet.Pos(), "printer "+pairSet(P, false)+" ; reader "+pairSet(R, false), "printer escapes "+pairSet(P, false)+" but the reader un-escapes "+pairSet(R, false)+": a string containing the unmatched character does not survive printing and reading")
 }
